@@ -435,34 +435,50 @@ func builtinStringSplit(call FunctionCall) Value {
 	}
 }
 
+// utf16Value returns the string value made of the given UTF-16 code units.
+// It is held as a Go string unless it contains an unpaired surrogate, which
+// has no UTF-8 form and is kept as code units.
+func utf16Value(units []uint16) Value {
+	for i := 0; i < len(units); i++ {
+		switch {
+		case units[i] < 0xD800 || units[i] > 0xDFFF:
+		case units[i] < 0xDC00 && i+1 < len(units) && units[i+1] >= 0xDC00 && units[i+1] <= 0xDFFF:
+			i++ // a surrogate pair
+		default:
+			return string16Value(append([]uint16(nil), units...))
+		}
+	}
+	return stringValue(string(utf16.Decode(units)))
+}
+
 // builtinStringSlice returns the string sliced by the given values
-// which are rune not byte offsets, as per String.prototype.slice.
+// which are UTF-16 code unit not byte offsets, as per String.prototype.slice.
 func builtinStringSlice(call FunctionCall) Value {
 	checkObjectCoercible(call.runtime, call.This)
-	target := []rune(call.This.string())
+	target := utf16.Encode([]rune(call.This.string()))
 
 	length := int64(len(target))
 	start, end := rangeStartEnd(call.ArgumentList, length, false)
 	if end-start <= 0 {
 		return stringValue("")
 	}
-	return stringValue(string(target[start:end]))
+	return utf16Value(target[start:end])
 }
 
 func builtinStringSubstring(call FunctionCall) Value {
 	checkObjectCoercible(call.runtime, call.This)
-	target := []rune(call.This.string())
+	target := utf16.Encode([]rune(call.This.string()))
 
 	length := int64(len(target))
 	start, end := rangeStartEnd(call.ArgumentList, length, true)
 	if start > end {
 		start, end = end, start
 	}
-	return stringValue(string(target[start:end]))
+	return utf16Value(target[start:end])
 }
 
 func builtinStringSubstr(call FunctionCall) Value {
-	target := []rune(call.This.string())
+	target := utf16.Encode([]rune(call.This.string()))
 
 	size := int64(len(target))
 	start, length := rangeStartLength(call.ArgumentList, size)
@@ -484,7 +500,7 @@ func builtinStringSubstr(call FunctionCall) Value {
 		length = size - start
 	}
 
-	return stringValue(string(target[start : start+length]))
+	return utf16Value(target[start : start+length])
 }
 
 func builtinStringStartsWith(call FunctionCall) Value {
